@@ -10,9 +10,13 @@ from .common import Check, Model
 
 ASSUMPTIONS = [
     "C13 model: Exec/Typing.v (runtime-type-directed typing judgment + checker for FieldsOnCorrectType, ScalarLeafs, "
-    "KnownArgumentNames, ProvidedRequiredArguments, ValuesOfCorrectType, VariablesAreInputTypes, NoUndefinedVariables, "
-    "VariablesInAllowedPosition, KnownFragmentNames, NoFragmentCycles; `conforms` for data graphs) over the execution "
-    "model Exec/Spec.v (tied to /repo by C02's correspondence, repeated here on every executed case)",
+    "KnownArgumentNames, ProvidedRequiredArguments, ValuesOfCorrectType incl. input objects/OneOf, UniqueInputFieldNames, "
+    "VariablesAreInputTypes, NoUndefinedVariables, VariablesInAllowedPosition (a OneOf field is a non-null position, as "
+    "in the specification's IsNonNullPosition), KnownFragmentNames, NoFragmentCycles, the same-field part of "
+    "OverlappingFieldsCanBeMerged; `conforms` for data graphs) over the execution model Exec/Spec.v (tied to /repo by "
+    "C02's correspondence, repeated here on every executed case)",
+    "schema_ok (defaults of arguments/input fields coerce, input field names distinct, OneOf fields nullable without "
+    "default) is a hypothesis of the theorems; it is evaluated on every generated schema that validate_schema accepts",
     "validate()==[] => well_typed is checked on every generated document and mutant; the converse (model more "
     "permissive than validation) is counted, not a violation",
     "OverlappingFieldsCanBeMerged is modelled by the part execution relies on (same response key on one runtime "
@@ -194,6 +198,9 @@ def process(ck, m, rng, gs, schema, sdl, wschema, items, max_depth):
         try:
             payload = G.W(100, [], [wschema, it["wdoc"], G.enc_vars(it["variables"]), G.enc_data(it["data"])])
             it["payload"] = G.flatten(payload)
+            if len(it["payload"]) > 150000:
+                it["payload"] = None
+                ck.count("skipped_too_large_for_the_wire")
         except G.OutOfFragment:
             it["payload"] = None
             ck.count("skipped_out_of_fragment")
